@@ -465,3 +465,31 @@ Proof.
     right. vm_compute. eauto.
   - vm_compute. repeat split; reflexivity.
 Qed.
+
+(** Outside the invariant: an account kind that cannot carry a code hash sitting at a contract creation
+    address (reproduced on the real code with a genesis file that holds an SDK BaseAccount at the CREATE
+    address of a deployer: the deployment succeeds, SetAccount has no code hash field to write, the
+    constructor's SSTOREs land under the address).  The run violates [run_ok], the state violates
+    [evm_wf], the account is not exported (and InitGenesis would refuse it), and its storage is gone
+    after the re-import.  The "contract" is dead from the start: no code answers at the address. *)
+Definition base_ops : list evm_op := [EvNewAcc 5 KBase; EvCreate 5 77; EvSStore 5 0 42; EvNewAcc 1 KEth]%N.
+Definition base_run : gmap N auth_acc * evm_state := fold_left toy_step base_ops (∅, mk_evm 0 ∅ ∅).
+
+Lemma evm_base_account_storage_refuted_lemma :
+  let v := fun _ : N => true in let nm := fun p : N => p in
+  let auth := base_run.1 in let s := base_run.2 in
+  run_ok toy_hash v nm (∅, mk_evm 0 ∅ ∅) base_ops = false /\
+  ~ evm_wf toy_hash v nm auth s /\
+  auth !! 5%N = Some (KBase, 1000%N) /\
+  evm_export auth s = mk_evmg 0 [mk_ea 1 0 []]%N /\
+  evm_ask auth (EvQCode 5) s = EvAN 0 /\
+  evm_ask auth (EvQStorage 5 0) s = EvAO (Some 42%N) /\
+  (evm_ask auth (EvQStorage 5 0) <$> evm_init toy_hash v nm auth (evm_export auth s)) = Some (EvAO None).
+Proof.
+  cbv zeta. split; [by vm_compute|]. split.
+  - intros (_ & Hs & _).
+    destruct (Hs 5%N) as (k & ch & Ha & Hk).
+    + intros H. apply (f_equal (fun m : gmap N N => m !! 0%N)) in H. vm_compute in H. discriminate.
+    + vm_compute in Ha. injection Ha as <- <-. discriminate.
+  - vm_compute. repeat split; reflexivity.
+Qed.
